@@ -144,7 +144,7 @@ theorem acceptTxs_facts (P : Params) (s : State) : ∀ (txs : List Tx) (acc : In
     (∀ tx ∈ txs, ∃ a, check P s a tx = none) ∧ acc + proposedSum txs ≤ s.stage - s.used := by
   intro txs
   induction txs with
-  | nil => intro acc h0 _; exact ⟨fun tx h => by cases h, by simp [proposedSum]; omega⟩
+  | nil => intro acc h0 _; exact ⟨fun tx h => (by cases h), (by simp [proposedSum]; omega)⟩
   | cons tx t ih =>
     intro acc h0 h
     simp only [acceptTxs, Bool.and_eq_true, Option.isNone_iff_eq_none] at h
@@ -153,27 +153,27 @@ theorem acceptTxs_facts (P : Params) (s : State) : ∀ (txs : List Tx) (acc : In
     | propose id bs =>
       obtain ⟨ha, hb⟩ := checkPropose_none s acc bs h1
       obtain ⟨i1, i2⟩ := ih (acc + total bs) (by omega) h2
-      refine ⟨?_, by simp only [proposedSum]; omega⟩
+      refine ⟨?_, (by simp only [proposedSum]; omega)⟩
       intro tx htx
       rcases List.mem_cons.mp htx with rfl | htx
       · exact ⟨acc, h1⟩
       · exact i1 tx htx
     | review id m a =>
       obtain ⟨i1, i2⟩ := ih (acc + 0) (by omega) h2
-      exact ⟨fun tx htx => by rcases List.mem_cons.mp htx with rfl | htx; exact ⟨acc, h1⟩; exact i1 tx htx,
-        by simp only [proposedSum]; omega⟩
+      exact ⟨fun tx htx => (by rcases List.mem_cons.mp htx with rfl | htx; exact ⟨acc, h1⟩; exact i1 tx htx),
+        (by simp only [proposedSum]; omega)⟩
     | rejvotes id a =>
       obtain ⟨i1, i2⟩ := ih (acc + 0) (by omega) h2
-      exact ⟨fun tx htx => by rcases List.mem_cons.mp htx with rfl | htx; exact ⟨acc, h1⟩; exact i1 tx htx,
-        by simp only [proposedSum]; omega⟩
+      exact ⟨fun tx htx => (by rcases List.mem_cons.mp htx with rfl | htx; exact ⟨acc, h1⟩; exact i1 tx htx),
+        (by simp only [proposedSum]; omega)⟩
     | withdraw id a =>
       obtain ⟨i1, i2⟩ := ih (acc + 0) (by omega) h2
-      exact ⟨fun tx htx => by rcases List.mem_cons.mp htx with rfl | htx; exact ⟨acc, h1⟩; exact i1 tx htx,
-        by simp only [proposedSum]; omega⟩
+      exact ⟨fun tx htx => (by rcases List.mem_cons.mp htx with rfl | htx; exact ⟨acc, h1⟩; exact i1 tx htx),
+        (by simp only [proposedSum]; omega)⟩
     | track id k st =>
       obtain ⟨i1, i2⟩ := ih (acc + 0) (by omega) h2
-      exact ⟨fun tx htx => by rcases List.mem_cons.mp htx with rfl | htx; exact ⟨acc, h1⟩; exact i1 tx htx,
-        by simp only [proposedSum]; omega⟩
+      exact ⟨fun tx htx => (by rcases List.mem_cons.mp htx with rfl | htx; exact ⟨acc, h1⟩; exact i1 tx htx),
+        (by simp only [proposedSum]; omega)⟩
 
 theorem chkP_of_check (P : Params) (s : State) (acc : Int) (id : Nat) (tx : Tx)
     (hc : check P s acc tx = none) : chkP id (get id s.props) tx := by
@@ -254,7 +254,7 @@ inductive Reachable (P : Params) (stage used0 : Int) : State → Prop
 theorem C29_reachable_partial (P : Params) (stage used0 : Int) (s : State)
     (hr : Reachable P stage used0 s) : Inv s := by
   induction hr with
-  | init h0 => exact ⟨by simp [keys], fun id p h => by simp [Deposit.get] at h, h0⟩
+  | init h0 => exact ⟨(by simp [keys]), fun id p h => (by simp [Deposit.get] at h), h0⟩
   | block h s txs s' _ hwf hg hb ih => exact C29_inv_partial P h s txs s' ih hwf hg hb
 
 /-- the property in its own words, over all histories of guarded blocks: for every proposal the amount recorded
